@@ -169,7 +169,11 @@ def gen_file_frame(rng):
 
 
 def cli(args, cwd, stdin=None):
-    env = dict(os.environ, PYTHONPATH=lib.REPO, PYTHONHASHSEED='0', TDDA_VERIF='1')
+    # (importing tdda's console creates a scratch directory with tempfile.mkdtemp(): kept under the case's own directory,
+    # which is removed afterwards, instead of littering the system's /tmp with one empty directory per invocation)
+    scratch = os.path.join(cwd, '.scratch-tmp')
+    os.makedirs(scratch, exist_ok=True)
+    env = dict(os.environ, PYTHONPATH=lib.REPO, PYTHONHASHSEED='0', TDDA_VERIF='1', TMPDIR=scratch)
     for attempt in range(3):
         p = subprocess.run([lib.PY, '-m', 'tdda.constraints.console'] + args, cwd=cwd, env=env, input=stdin,
                            stdout=subprocess.PIPE, stderr=subprocess.PIPE, text=True, timeout=300)
@@ -365,7 +369,8 @@ def layer_b_case(arg):
                      "json.dump(res, open(sys.argv[2], 'w'))\n")
         with open(os.path.join(d, 'session.json'), 'w') as f_:
             json.dump(sess, f_)
-        env_ = dict(os.environ, PYTHONPATH=lib.REPO, PYTHONHASHSEED='0', TDDA_VERIF='1')
+        os.makedirs(os.path.join(d, '.scratch-tmp'), exist_ok=True)
+        env_ = dict(os.environ, PYTHONPATH=lib.REPO, PYTHONHASHSEED='0', TDDA_VERIF='1', TMPDIR=os.path.join(d, '.scratch-tmp'))
         ps = subprocess.run([lib.PY, driver, os.path.join(d, 'session.json'), os.path.join(d, 'session.out')], cwd=d, env=env_,
                             stdout=subprocess.PIPE, stderr=subprocess.PIPE, text=True, timeout=600)
         if ps.returncode != 0 or not os.path.exists(os.path.join(d, 'session.out')):
